@@ -211,6 +211,7 @@ def run(ctx):
     non_normal_probe(ctx, jinja2, ModuleLoader)
     literal_names_stream(ctx, jinja2, ModuleLoader)
     bytecode_probe(ctx)
+    prefix_loader_probe(ctx, jinja2, ModuleLoader)
     same_source_stream(ctx, jinja2, ModuleLoader)
 
 
@@ -362,6 +363,44 @@ def same_source_stream(ctx, jinja2, ModuleLoader):
                 ctx.reject({"sources": srcs, "zip": mode, "differs": {n: [got.get(n), ref[n]] for n in bad}},
                            f"name-dependent environment: precompiled and source renders differ for {bad}: "
                            f"{[(got.get(n), ref[n]) for n in bad][:2]}", None)
+            else:
+                ctx.validated()
+    finally:
+        shutil.rmtree(root, ignore_errors=True)
+
+
+def prefix_loader_probe(ctx, jinja2, ModuleLoader):
+    """recorded finding C31-prefixloader-template-name, re-observed on every run (name-dependent renders differ), together
+    with the name-independent renders of the same PrefixLoader sets, which must agree"""
+    root = os.path.join(lib.BUILD, f"c31_pfx_{os.getpid()}")
+    os.makedirs(root, exist_ok=True)
+    try:
+        for i, (body, known) in enumerate([("{{ self }}|{{ v }}", True), ("<{{ v }}>{% include 'html/y' %}", False),
+                                           ("{% extends 'txt/base' %}{% block b %}{{ v }}{{ super() }}{% endblock %}", False)]):
+            def loader():
+                return jinja2.PrefixLoader({"html": jinja2.DictLoader({"x": body, "y": "Y{{ v }}"}),
+                                            "txt": jinja2.DictLoader({"base": "B[{% block b %}b{% endblock %}]"})})
+            ae = (lambda n: bool(n) and n.startswith("html/")) if known else False
+            target = os.path.join(root, f"p{i}")
+
+            def run(ld):
+                try:
+                    return jinja2.Environment(loader=ld, autoescape=ae).get_template("html/x").render(v="<b>")
+                except Exception as e:  # noqa
+                    return "X:" + type(e).__name__
+            try:
+                ref = run(loader())
+                jinja2.Environment(loader=loader(), autoescape=ae).compile_templates(target, zip=None, log_function=lambda x: None,
+                                                                                   ignore_errors=False)
+                got = run(ModuleLoader(target))
+            finally:
+                shutil.rmtree(target, ignore_errors=True)
+            ctx.case()
+            ctx.count("probe-prefix-loader")
+            if got != ref:
+                ctx.reject({"body": body, "loader": "PrefixLoader", "source": ref, "precompiled": got},
+                           f"PrefixLoader source renders {ref!r}, precompiled renders {got!r}",
+                           "C31:prefixloader-source-template-has-local-name" if known else None)
             else:
                 ctx.validated()
     finally:
